@@ -28,6 +28,17 @@ type SessionState struct {
 	createdAt        time.Time           // Session创建时间
 }
 
+// clone 返回会话状态的独立副本（主密钥单独拷贝）。
+// 缓存只保存和返回副本，淘汰条目时清零主密钥不会影响其他键下或握手中正在使用的会话。
+func (s *SessionState) clone() *SessionState {
+	if s == nil {
+		return nil
+	}
+	c := *s
+	c.masterSecret = append([]byte(nil), s.masterSecret...)
+	return &c
+}
+
 // SessionCache 会话缓存器接口，用于存储和检索会话状态。
 // 实现必须支持多 goroutine 并发访问。
 //
@@ -86,7 +97,7 @@ func (c *lruSessionCache) Put(sessionKey string, cs *SessionState) {
 			delete(c.m, sessionKey)
 		} else {
 			entry := elem.Value.(*lruSessionCacheEntry)
-			entry.state = cs
+			entry.state = cs.clone()
 			c.q.MoveToFront(elem)
 		}
 		return
@@ -98,7 +109,7 @@ func (c *lruSessionCache) Put(sessionKey string, cs *SessionState) {
 	}
 
 	if c.q.Len() < c.capacity {
-		entry := &lruSessionCacheEntry{sessionKey, cs}
+		entry := &lruSessionCacheEntry{sessionKey, cs.clone()}
 		c.m[sessionKey] = c.q.PushFront(entry)
 		return
 	}
@@ -113,7 +124,7 @@ func (c *lruSessionCache) Put(sessionKey string, cs *SessionState) {
 	}
 	delete(c.m, entry.sessionKey)
 	entry.sessionKey = sessionKey
-	entry.state = cs
+	entry.state = cs.clone()
 	c.q.MoveToFront(elem)
 	c.m[sessionKey] = elem
 }
@@ -128,12 +139,12 @@ func (c *lruSessionCache) Get(sessionKey string) (*SessionState, bool) {
 		if elem == nil {
 			return nil, false
 		}
-		return elem.Value.(*lruSessionCacheEntry).state, true
+		return elem.Value.(*lruSessionCacheEntry).state.clone(), true
 	}
 
 	if elem, ok := c.m[sessionKey]; ok {
 		c.q.MoveToFront(elem)
-		return elem.Value.(*lruSessionCacheEntry).state, true
+		return elem.Value.(*lruSessionCacheEntry).state.clone(), true
 	}
 	return nil, false
 }
